@@ -29,7 +29,8 @@ pub type VerifierKey = CommitterKey;
 pub type Comm = Commitment;
 pub type Pt = Fr;
 //@use pcenv
-//@spec group_spec scp_spec ipa_spec
+//@use h2c
+//@spec group_spec h2c_spec scp_spec ipa_spec
 impl SuccinctCheckPolynomial {
 //@stub from=ipa_coeffs.rs id=ipa.SuccinctCheckPolynomial.compute_coeffs vis=pub
 }
